@@ -7,6 +7,7 @@ compute now: the earliest scheduled step, capped by the end of the simulation.  
 reachable state (`reach_awaitOk`), for every configuration.
 -/
 import MosaikProofs.Sched.Sources
+import MosaikProofs.Sched.Trace
 namespace Mosaik
 
 /-- the fields a waiting simulator's wake-up condition depends on, besides its progress -/
@@ -50,8 +51,9 @@ theorem prune_waitEq (cfg : Cfg) (s : State) : WaitEq s (prune cfg s) := by
   simp only
   split <;> rfl
 
-theorem clearCur_waitEq (s : State) (p : Sid) (c : TT) : WaitEq s (clearCur s p c) :=
-  (waitEq_upd s p _ (fun _ => rfl)).trans (waitEq_emit _ _)
+theorem clearCur_waitEq (s : State) (p : Sid) (c : TT) : WaitEq s (clearCur s p c) := by
+  unfold clearCur
+  exact (waitEq_upd s p (fun x => { x with cur := .none }) (fun _ => rfl)).trans (waitEq_emit _ _)
 
 theorem storeOutputs_waitEq (cfg : Cfg) (s : State) (p : Sid) (ot : Int) (d : DataReply) :
     WaitEq s (storeOutputs cfg s p ot d) := by
@@ -133,33 +135,280 @@ theorem notify_awaitOk {cfg : Cfg} {s : State} (p : Sid) {q : Sid} (hq : AwaitOk
 
 /-- `next_step_settled` sets the awaited time afresh for `p` -/
 theorem settle_awaitOk {cfg : Cfg} {s : State} (p : Sid) {q : Sid} (hq : q ≠ p → AwaitOk cfg s q) : AwaitOk cfg (settle cfg s p) q := by
-  have hnext : ∀ pc : PC, ∀ x, ((s.upd p fun x => { x with pc := pc }).sims x).next = (s.sims x).next := by
-    intro pc x; rw [State.upd_sims]; split <;> rfl
   by_cases hqp : q = p
   · subst hqp
     intro a dl hpc
     right
-    unfold settle at hpc ⊢
-    simp only at hpc ⊢
+    have htarget : awaitTarget cfg (settle cfg s q) q = awaitTarget cfg s q := by
+      unfold awaitTarget; rw [settle_next]
+    rw [htarget]
+    unfold settle at hpc
+    simp only at hpc
     split at hpc
     · simp at hpc
-    · split at hpc
-      · rename_i h hh
+    · cases hh : (s.sims q).next.head? with
+      | none =>
+        simp only [hh, State.upd_same, PC.awaitSettle.injEq] at hpc
+        unfold awaitTarget; rw [hh]; exact hpc.1.symm
+      | some h =>
+        simp only [hh] at hpc
         split at hpc
         · simp at hpc
         · simp only [State.upd_same, PC.awaitSettle.injEq] at hpc
-          rename_i hne
-          simp only [hne, if_false]
-          unfold awaitTarget
-          simp only [State.upd_same, hh]
-          exact hpc.1.symm
-      · rename_i hh
-        simp only [State.upd_same, PC.awaitSettle.injEq] at hpc
-        unfold awaitTarget
-        simp only [State.upd_same, hh]
-        exact hpc.1.symm
-  · have : WaitEq' : ∀ pc : PC, (((s.upd p fun x => { x with pc := pc }).sims q).wait = (s.sims q).wait) := by
-      intro pc; rw [State.upd_other _ _ hqp]
-    sorry
+          unfold awaitTarget; rw [hh]; exact hpc.1.symm
+  · have hsame : ∀ pc : PC, AwaitOk cfg (s.upd p fun x => { x with pc := pc }) q := by
+      intro pc a dl hpc
+      rw [State.upd_other _ _ hqp] at hpc ⊢
+      rcases hq hqp a dl hpc with hn | ha
+      · exact Or.inl hn
+      · right; rw [ha]; unfold awaitTarget; rw [State.upd_other _ _ hqp]
+    unfold settle
+    simp only
+    split
+    · exact (hsame _).of_waitEq (waitEq_emit _ _)
+    · split
+      · split
+        · exact hsame _
+        · exact hsame _
+      · exact hsame _
+
+theorem AwaitOk.congr {cfg : Cfg} {s s' : State} {q : Sid} (h : s'.sims q = s.sims q) (hq : AwaitOk cfg s q) : AwaitOk cfg s' q := by
+  intro a dl hpc
+  rw [h] at hpc ⊢
+  rcases hq a dl hpc with hn | ha
+  · exact Or.inl hn
+  · right; rw [ha]; unfold awaitTarget; rw [h]
+
+theorem AwaitOk.upd_other {cfg : Cfg} {s : State} {p q : Sid} (f : SimSt → SimSt) (hqp : q ≠ p) (hq : AwaitOk cfg s q) :
+    AwaitOk cfg (s.upd p f) q := hq.congr (State.upd_other _ _ hqp)
+
+/-- the block ending a step -/
+theorem finish_awaitOk {cfg : Cfg} {s : State} (p : Sid) (c : TT) (hnf : (finish cfg s p c).failed = none) {q : Sid}
+    (hq : q ≠ p → AwaitOk cfg s q) : AwaitOk cfg (finish cfg s p c) q := by
+  have h3 : q ≠ p → AwaitOk cfg (advanceAll cfg (notify cfg (clearCur s p c) p)) q := fun hqp =>
+    (notify_awaitOk p ((hq hqp).of_waitEq (clearCur_waitEq s p c))).of_waitEq (advanceAll_waitEq cfg _)
+  unfold finish at hnf ⊢
+  simp only at hnf ⊢
+  split
+  · rename_i hfail
+    simp only [hfail, if_true] at hnf
+    rw [hnf] at hfail; cases hfail
+  · split
+    · exact settle_awaitOk p (fun hqp => (h3 hqp).of_waitEq (prune_waitEq cfg _))
+    · exact settle_awaitOk p h3
+
+theorem rtCheck_sims (cfg : Cfg) (s : State) (p : Sid) (c : TT) : (rtCheck cfg s p c).sims = s.sims := by
+  unfold rtCheck
+  split
+  · rfl
+  · split
+    · split
+      · rw [State.fail_sims]
+      · rfl
+    · rfl
+
+theorem afterStep_awaitOk {cfg : Cfg} {s : State} (p : Sid) (c : TT) (hnf : (afterStep cfg s p c).failed = none) {q : Sid}
+    (hq : q ≠ p → AwaitOk cfg s q) : AwaitOk cfg (afterStep cfg s p c) q := by
+  have hq3 : q ≠ p → AwaitOk cfg (rtCheck cfg s p c) q := fun hqp => (hq hqp).congr (by rw [rtCheck_sims])
+  unfold afterStep at hnf ⊢
+  simp only at hnf ⊢
+  split
+  · rename_i hfail
+    simp only [hfail, if_true] at hnf
+    rw [hnf] at hfail; cases hfail
+  · rename_i hfail
+    simp only [hfail, if_false] at hnf
+    split
+    · rename_i hempty
+      simp only [hempty, if_true] at hnf
+      exact finish_awaitOk p c hnf hq3
+    · by_cases hqp : q = p
+      · subst hqp
+        intro a dl hpc
+        simp at hpc
+      · exact (hq3 hqp).upd_other _ hqp
+
+theorem beginStep_other (cfg : Cfg) (s : State) (p : Sid) (c : TT) (rest : List TT) {q : Sid} (hqp : q ≠ p) :
+    (beginStep cfg s p c rest).sims q = s.sims q := by
+  have h1 : ((s.upd p fun x => { x with cur := some c, next := rest }).sims q) = s.sims q := State.upd_other _ _ hqp
+  unfold beginStep
+  simp only
+  split
+  · rw [State.fail_sims]; exact h1
+  · split
+    · rw [State.fail_sims]; exact h1
+    · obtain ⟨f, _, hsnd⟩ := getInputData_snd cfg (s.upd p fun z => { z with cur := some c, next := rest }) p c
+      rw [hsnd]
+      simp only [State.emit_sims]
+      rw [State.upd_other _ _ hqp, State.upd_other _ _ hqp]; exact h1
+
+theorem beginStep_pc (cfg : Cfg) (s : State) (p : Sid) (c : TT) (rest : List TT) (hnf : (beginStep cfg s p c rest).failed = none) :
+    ((beginStep cfg s p c rest).sims p).pc = .inStep := by
+  unfold beginStep at hnf ⊢
+  by_cases h1 : c ≠ (s.sims p).progress
+  · rw [if_pos h1] at hnf
+    have := State.fail_failed (s.upd p fun x => { x with cur := some c, next := rest }) (.stepInPast p)
+    rw [hnf] at this; cases this
+  · rw [if_neg h1] at hnf ⊢
+    by_cases h2 : (c.tail.any fun k => decide (k ≥ cfg.maxLoop)) = true
+    · rw [if_pos h2] at hnf
+      have := State.fail_failed (s.upd p fun x => { x with cur := some c, next := rest }) (.loop p)
+      rw [hnf] at this; cases this
+    · rw [if_neg h2]
+      simp
+
+/-- every action keeps the awaited times consistent -/
+theorem step_awaitOk {cfg : Cfg} {s s' : State} {a : Action} (hs : ∀ q, AwaitOk cfg s q) (h : step cfg s a = some s')
+    (hnf : s'.failed = none) : ∀ q, AwaitOk cfg s' q := by
+  intro q
+  cases a with
+  | start p =>
+    simp only [step, stepStart] at h
+    split at h
+    · split at h
+      · rename_i hf; cases h; rw [hnf] at hf; cases hf
+      · cases h; exact settle_awaitOk p (fun _ => (hs q).of_waitEq (advance_waitEq cfg s p))
+    · cases h
+  | wake p =>
+    simp only [step, stepWake] at h
+    split at h
+    · cases hpc : (s.sims p).pc with
+      | awaitSettle a dl =>
+        simp only [hpc] at h
+        split at h
+        · have h1 : q ≠ p → AwaitOk cfg (if cfg.rt.isSome then advance cfg (s.upd p fun y => { y with newer := false }) p
+              else (s.upd p fun y => { y with newer := false })) q := by
+            intro hqp
+            split
+            · exact ((hs q).upd_other _ hqp).of_waitEq (advance_waitEq cfg _ p)
+            · exact (hs q).upd_other _ hqp
+          generalize (if cfg.rt.isSome then advance cfg (s.upd p fun y => { y with newer := false }) p
+              else (s.upd p fun y => { y with newer := false })) = s2 at h h1
+          by_cases hfl : s2.failed.isSome = true
+          · simp only [hfl, if_true, Option.some.injEq] at h
+            subst h; rw [hnf] at hfl; cases hfl
+          · simp only [hfl, Bool.false_eq_true, if_false, Option.some.injEq] at h
+            subst h; exact settle_awaitOk p h1
+        · cases h
+      | init => simp [hpc] at h
+      | waitDeps t => simp [hpc] at h
+      | inStep => simp [hpc] at h
+      | inGet => simp [hpc] at h
+      | done => simp [hpc] at h
+    · cases h
+  | deps p =>
+    simp only [step, stepDeps] at h
+    split at h
+    · cases hpc : (s.sims p).pc with
+      | waitDeps t =>
+        simp only [hpc] at h
+        split at h
+        · cases hnext : (s.sims p).next with
+          | nil => simp [hnext] at h
+          | cons c rest =>
+            simp only [hnext, Option.some.injEq] at h
+            subst h
+            by_cases hqp : q = p
+            · subst hqp
+              intro a dl hpc2
+              rw [beginStep_pc cfg s q c rest hnf] at hpc2; cases hpc2
+            · exact (hs q).congr (beginStep_other cfg s p c rest hqp)
+        · cases h
+      | init => simp [hpc] at h
+      | awaitSettle a dl => simp [hpc] at h
+      | inStep => simp [hpc] at h
+      | inGet => simp [hpc] at h
+      | done => simp [hpc] at h
+    · cases h
+  | setData p target entries =>
+    simp only [step, stepSetData] at h
+    split at h
+    · split at h
+      · cases h; exact (hs q).of_waitEq (waitEq_fail _ _)
+      · cases h
+        exact (hs q).of_waitEq (waitEq_upd s target
+          (fun x => { x with setData := entries.foldl (fun acc e => InputData.set acc e.1 e.2) x.setData }) (fun _ => rfl))
+    · cases h
+  | getDataReq p target =>
+    simp only [step, stepGetDataReq] at h
+    split at h
+    · split at h
+      · cases h; exact (hs q).of_waitEq (waitEq_fail _ _)
+      · cases h; exact hs q
+    · cases h
+  | setEvent p t =>
+    simp only [step, stepSetEvent] at h
+    split at h
+    · split at h
+      · cases h; exact (hs q).of_waitEq (waitEq_fail _ _)
+      · split at h
+        · cases h; exact schedule_awaitOk _ _ (hs q)
+        · cases h; exact (hs q).of_waitEq (waitEq_emit _ _)
+    · cases h
+  | stepReply p r =>
+    simp only [step, stepStepReply] at h
+    split at h
+    · cases hcur : (s.sims p).cur with
+      | none => simp [hcur] at h
+      | some c =>
+        simp only [hcur, Option.some.injEq] at h
+        subst h
+        have h1 : AwaitOk cfg ((s.upd p fun y => { y with last := some c }).emit (.stepped p c)) q :=
+          (hs q).of_waitEq ((waitEq_upd s p (fun y => { y with last := some c }) (fun _ => rfl)).trans (waitEq_emit _ _))
+        unfold processStepReply at hnf ⊢
+        simp only at hnf ⊢
+        cases r with
+        | bad => exact h1.of_waitEq (waitEq_fail _ _)
+        | none =>
+          simp only at hnf ⊢
+          split
+          · exact h1.of_waitEq (waitEq_fail _ _)
+          · rename_i hty; simp only [hty, if_false] at hnf
+            exact afterStep_awaitOk p c hnf (fun _ => h1)
+        | int n =>
+          simp only at hnf ⊢
+          split
+          · exact h1.of_waitEq (waitEq_fail _ _)
+          · rename_i hle; simp only [hle, if_false] at hnf
+            split
+            · rename_i hlt; simp only [hlt, if_true] at hnf
+              exact afterStep_awaitOk p c hnf (fun _ => schedule_awaitOk _ _ h1)
+            · rename_i hlt; simp only [hlt, if_false] at hnf
+              exact afterStep_awaitOk p c hnf (fun _ => h1)
+    · cases h
+  | dataReply p d =>
+    simp only [step, stepDataReply] at h
+    split at h
+    · cases hcur : (s.sims p).cur with
+      | none => simp [hcur] at h
+      | some c =>
+        simp only [hcur, Option.some.injEq] at h
+        subst h
+        have h1 : AwaitOk cfg ((s.upd p fun y => { y with outTime := (outTimeOf c d).2 }).emit (.got p c (outTimeOf c d).2 d.data)) q :=
+          (hs q).of_waitEq ((waitEq_upd s p (fun y => { y with outTime := (outTimeOf c d).2 }) (fun _ => rfl)).trans (waitEq_emit _ _))
+        unfold processDataReply at hnf ⊢
+        simp only at hnf ⊢
+        split
+        · exact h1.of_waitEq (waitEq_fail _ _)
+        · rename_i hot; simp only [hot, if_false] at hnf
+          exact finish_awaitOk p c hnf (fun _ => h1.of_waitEq (storeOutputs_waitEq cfg _ p _ d))
+    · cases h
+  | tick n =>
+    simp only [step, stepTick] at h
+    split at h
+    · cases h
+    · cases h; exact (hs q).congr rfl
+
+/-- in every reachable state that has not failed, every awaited time is consistent -/
+theorem reach_awaitOk {cfg : Cfg} {s : State} (hr : Reach cfg s) : s.failed = none → ∀ q, AwaitOk cfg s q := by
+  induction hr with
+  | init => intro _ q a dl hpc; simp [initState, initSim] at hpc
+  | @step s s' a _ hstep ih =>
+    intro hnf
+    have hf0 : s.failed = none := by
+      cases hf : s.failed with
+      | none => rfl
+      | some e => rw [step_none_of_failed (by rw [hf]; rfl)] at hstep; cases hstep
+    exact step_awaitOk (ih hf0) hstep hnf
 
 end Mosaik
